@@ -35,6 +35,11 @@ def units(tier, seed):
     for spec in tree_specs:
         us.append({"kind": "tree", "spec": spec, "max_parents": 8 if tier == "quick" else 20,
                    "max_execs": 150 if tier == "quick" else 1000})
+        if spec["name"].split(":")[0] in ("S5", "S26", "S1", "S2"):
+            # parents that are deeper than the limit of the decider the crossover runs with (a population from
+            # FullInitializer(6) crossed over by a representation limited to 3, create_genotype(decider=...), ...)
+            us.append({"kind": "tree", "spec": spec, "max_parents": 8 if tier == "quick" else 20,
+                       "max_execs": 150 if tier == "quick" else 1000, "shallow_xo": True})
     lin_specs = [s for s in fam if s["name"].split(":")[0] in ("S1", "S2", "S8", "S12")] + [s for s in fam if s["name"] in ("F1:14", "F1:13")]
     for spec in lin_specs:
         for rep in ("ge", "stack", "sge", "dsge"):
@@ -139,6 +144,10 @@ def run_tree(unit) -> UnitResult:
         if g is None:
             return r
         d = g.get_min_tree_depth() + (2 if ctx.spec["name"].startswith("S26") else 1)
+        d_xo = d
+        if unit.get("shallow_xo"):
+            d_xo = g.get_min_tree_depth()
+            d = d + 2
         parents = []
         seen = set()
         st = ExploreStats()
@@ -170,7 +179,7 @@ def run_tree(unit) -> UnitResult:
             for (a, ta), (b, tb) in itertools.product(parents[:4], repeat=2):
                 for choices in ((), (1,), (2,), (0, 1)):
                     try:
-                        kids = make_rep("tree", g, _ES(choices, strict=False), d).crossover(_ES(choices, strict=False), a, b)
+                        kids = make_rep("tree", g, _ES(choices, strict=False), d_xo).crossover(_ES(choices, strict=False), a, b)
                     except Exception:  # noqa
                         continue
                     for kch in kids:
@@ -182,7 +191,7 @@ def run_tree(unit) -> UnitResult:
         pairs += [(p, c) for p in parents[:4] for c in second] + [(c, p) for p in parents[:4] for c in second]
         for (a, ta), (b, tb) in pairs:
             def xo(src, a=a, b=b):
-                return make_rep("tree", g, src, d).crossover(src, a, b)
+                return make_rep("tree", g, src, d_xo).crossover(src, a, b)
 
             st2 = ExploreStats()
             for ex in explore(xo, max_execs=unit["max_execs"], horizon=300, stats=st2):
